@@ -482,6 +482,9 @@ def scenario_wise_eval(case, lab, labels):
     fs.suppset(abs(z) <= 1, abs(u) <= 1)
     m.minsup(E(x.sum() + z.sum() + u.sum()), fs)
     m.st(x == xv)
+    y = m.dvar(1)                 # affinely adaptive, the same rule in every scenario
+    y.adapt(u)
+    m.st(y == 2 * u + 1)
     with quiet():
         m.solve(display=False)
     if m.solution is None or m.solution.x is None or np.isnan(m.solution.objval):
@@ -498,7 +501,10 @@ def scenario_wise_eval(case, lab, labels):
               ('e(u.assign, z.assign(sw))', lambda: e(u.assign(uv), z.assign(zs, sw=True)), [val(zs[s_], uv) for s_ in range(S)]),
               ('e(z.assign(sw), u.assign(sw))', lambda: e(z.assign(zs, sw=True), u.assign(us, sw=True)), [val(zs[s_], us[s_]) for s_ in range(S)]),
               ('e(z.assign, u.assign)', lambda: e(z.assign(np.array(zv)), u.assign(uv)), [val(zv, uv)] * S),
-              ('e(z.assign(sw))', lambda: e(z.assign(zs, sw=True)), [val(zs[s_], [0.0]) for s_ in range(S)])]
+              ('e(z.assign(sw))', lambda: e(z.assign(zs, sw=True)), [val(zs[s_], [0.0]) for s_ in range(S)]),
+              ('y(u.assign(sw))', lambda: y(u.assign(us, sw=True)), [2 * us[s_] + 1 for s_ in range(S)]),
+              ('y(u.assign)', lambda: y(u.assign(uv)), [2 * uv + 1] * S),
+              ('(3*y - x[0])(u.assign(sw))', lambda: (3 * y - x[0])(u.assign(us, sw=True)), [3 * (2 * us[s_] + 1) - xv[0] for s_ in range(S)])]
     for what, f, expect in combos:
         res = f()
         if isinstance(res, pd.Series):
